@@ -3,18 +3,19 @@ package main
 func init() {
 	register(propSpec{
 		ID: "C09", Pkg: "props/c09", NeedCLI: true,
-		Rule: "cases: (a) every ordered pair of sequences of length 1..4 over {A,C} (quick) / 1..5 over {A,C,G} (thorough) x 54 schemes (match 1,2,5; mismatch -1,-4; extend -0.5,-1,-3; open = extend, extend-1, -10), and every ordered pair of length 1..3 (1..4) over {A,R,N}, {G,S,B}, {Q,E,L}, {F,I,Z} with the built-in matrices x 4 gap settings, and of length 1..4 over {E,D,A,R} with BLOSUM62, open -3.5, extend -0.5; every entry of EDNAFULL (16x16) and BLOSUM62 (24x24) pinned through a flanked pair; " +
-			"(b) random pairs of length 1..40, IUPAC DNA (upper case, U sometimes) or protein (20 aa + B,Z,X,*), the second sequence usually a mutated window (substitutions, block insertions/deletions) of the first between random flanks, low-complexity pools included, with match/mismatch schemes (multiples of 0.5, open <= extend < 0, open = extend included) or the built-in matrices; (c) both algorithms of the aligner incl. refused characters for the inputs-unmodified clause; (d) goalign sw executions with every subset of --match/--mismatch/--gap-open/--gap-extend, -l log, -o, 1/2/3 input sequences. " +
-			"Oracle: validity predicate on the returned rows (equal lengths = Length(), no all-gap column, rows without gaps = input[AlignStarts..AlignEnds] inclusive, matches/mismatches/gaps recounted from the rows and adding up to Length(), Alignment object = Seq1Ali/Seq2Ali, inputs unchanged); when the optimum of an independent three-state Gotoh dynamic program is > 0: score of the returned rows recomputed under gap(n)=open+(n-1)*extend == MaxScore() == Gotoh optimum, exactly; for inputs of length <= 3 the Gotoh optimum is itself compared with a one-by-one enumeration of all local alignments; the matrices are the oracle's own copies of NUC.4.4(+U=T) and NCBI BLOSUM62, checked for symmetry. " +
+		Rule: "cases: (a) every ordered pair of sequences of length 1..4 over {A,C} (quick) / 1..5 over {A,C,G} (thorough), and of length 1..4 over {a,C} and {A,a} (thorough also {A,a,C}), x 54 schemes (match 1,2,5; mismatch -1,-4; extend -0.5,-1,-3; open = extend, extend-1, -10), and every ordered pair of length 1..3 (1..4) over {A,R,N}, {G,S,B}, {Q,E,L}, {F,I,Z} with the built-in matrices x 4 gap settings, and of length 1..4 over {E,D,A,R} with BLOSUM62, open -3.5, extend -0.5; of length 1..3 over the soft-masked {a,R,n}, {q,E,l}; every entry of EDNAFULL (16x16) and BLOSUM62 (24x24) pinned through a flanked pair, with one or both letters in lower case too; " +
+			"(b) random pairs of length 1..40, IUPAC DNA (U sometimes) or protein (20 aa + B,Z,X,*), the second sequence usually a mutated window (substitutions, block insertions/deletions) of the first between random flanks, low-complexity pools included, half of the pairs soft-masked (one or both sequences entirely, in a window, or residue by residue in lower case), with match/mismatch schemes (multiples of 0.5, open <= extend < 0, open = extend included) or the built-in matrices; (c) both algorithms of the aligner incl. refused characters and soft-masked input for the inputs-unmodified clause; (d) goalign sw executions with every subset of --match/--mismatch/--gap-open/--gap-extend, -l log, -o, 1/2/3 input sequences. " +
+			"Oracle: validity predicate on the returned rows (equal lengths = Length(), no all-gap column, rows without gaps = input[AlignStarts..AlignEnds] inclusive, byte for byte (case included), matches/mismatches/gaps recounted from the rows and adding up to Length(), Alignment object = Seq1Ali/Seq2Ali, inputs byte-identical afterwards); when the optimum of an independent three-state Gotoh dynamic program is > 0: score of the returned rows recomputed under gap(n)=open+(n-1)*extend == MaxScore() == Gotoh optimum, exactly; for inputs of length <= 3 the Gotoh optimum is itself compared with a one-by-one enumeration of all local alignments; the matrices are the oracle's own copies of NUC.4.4(+U=T) and NCBI BLOSUM62, checked for symmetry. " +
 			"Non-trivial: optimum > 0 and (the returned alignment contains a gap, or starts at position 0 of a sequence, or is not the whole of both sequences); for the inputs-unmodified run: neither sequence is a palindrome; distinct = distinct (s1,s2,scheme)",
 		Assumptions: []string{
 			"positions reported by AlignStarts/AlignEnds are 0-based and inclusive (doc comment 'Indices of alignment end', cmd/sw.go log)",
-			"sequences have at least one residue and are upper case; lower case is outside the quantifier (match/mismatch compares raw characters)",
+			"sequences have at least one residue",
+			"lower case (soft-masked) letters: the built-in matrices score the letter whatever its case; for match/mismatch schemes and for the match/mismatch counts the documentation does not say whether a and A match, so a case-sensitive and a case-folded reading are both accepted (counted as ambiguous when only the second fits) - but the reported score, the score of the returned rows, the optimum and the counts must all hold under one and the same reading",
 			"which built-in matrix applies: a pair drawn as protein that contains a letter which is no nucleotide code (Q,E,I,L,F,P,Z) is scored with BLOSUM62, a pair drawn as DNA with EDNAFULL; a protein pair made only of letters that are nucleotide codes too is open: either matrix, or a refusal when a letter is outside EDNAFULL, is accepted and counted as ambiguous",
 			"match/mismatch/gap counts are read as: identical residues / different residues / columns holding a gap",
 			"absence of violations is established on the explored cases only; sub-spaces (a) are enumerated completely",
 		},
-		LevelText: "Bounded-exhaustive enumeration plus generated-input search against a reference model: all ordered pairs up to length 4 over {A,C} x 54 schemes (48 600 cases; thorough: up to length 5 over {A,C,G}, 7.1 million), all 832 matrix entries, and ~180 000 (quick) to ~8 million (thorough) random related pairs and command executions, each judged by a validity predicate and by exact comparison with an independent Gotoh optimum (itself cross-checked by brute-force enumeration for lengths <= 3). Shows absence of violations on what was explored; the enumerated sub-spaces are complete.",
+		LevelText: "Bounded-exhaustive enumeration plus generated-input search against a reference model: all ordered pairs up to length 4 over {A,C}, {a,C} and {A,a} x 54 schemes (145 800 cases; thorough: up to length 5 over {A,C,G}, 7.1 million), all 832 matrix entries (in three case variants), and ~180 000 (quick) to ~8 million (thorough) random related pairs and command executions, each judged by a validity predicate and by exact comparison with an independent Gotoh optimum (itself cross-checked by brute-force enumeration for lengths <= 3). Shows absence of violations on what was explored; the enumerated sub-spaces are complete.",
 		LevelNote: "trusts the harness's Gotoh program (cross-checked by enumeration up to length 3), its typed copies of NUC.4.4/BLOSUM62, and its readers of the FASTA output and of the sw log",
 		Technique: "bounded-exhaustive enumeration + property-based testing (rapid): reference dynamic program, brute-force enumeration, validity predicate; command-line differential",
 		DesignRef: "DESIGN.md section 5, C09",
